@@ -23,14 +23,15 @@ import (
 )
 
 type c02Case struct {
-	Replicas  int32   `json:"replicas"`
-	Slots     []int32 `json:"delete_slots"`
-	Policy    string  `json:"pod_management_policy"`
-	Strategy  string  `json:"update_strategy"`
-	Partition int32   `json:"partition"`
-	Templates int     `json:"claim_templates"`
-	Failure   string  `json:"failure,omitempty"`
-	Writes    []string `json:"writes,omitempty"`
+	Replicas      int32    `json:"replicas"`
+	Slots         []int32  `json:"delete_slots"`
+	Policy        string   `json:"pod_management_policy"`
+	Strategy      string   `json:"update_strategy"`
+	Partition     int32    `json:"partition"`
+	Templates     int      `json:"claim_templates"`
+	ServiceEdited bool     `json:"service_name_edited_after_pods_were_built"`
+	Failure       string   `json:"failure,omitempty"`
+	Writes        []string `json:"writes,omitempty"`
 }
 
 type c02PodControl struct{ log *[]string }
@@ -98,6 +99,10 @@ func c02Judge(c *c02Case) string {
 		p.Status.Conditions = []v1.PodCondition{{Type: v1.PodReady, Status: v1.ConditionTrue}}
 		pods = append(pods, p)
 	}
+	if c.ServiceEdited {
+		// the governing service name is not part of the revision: editing it must not make settled pods "non-matching"
+		set.Spec.ServiceName = "edited"
+	}
 	// let the status settle (at most two reconciles write it), then demand silence
 	for i := 0; i < 3; i++ {
 		if err := ssc.UpdateStatefulSet(set, pods); err != nil {
@@ -141,12 +146,12 @@ func TestReplayC02(t *testing.T) {
 		for _, slots := range [][]int32{nil, {1}, {0, 2}, {7}} {
 			for _, pol := range []string{"OrderedReady", "Parallel"} {
 				for _, st := range [][2]interface{}{{"RollingUpdate", int32(0)}, {"RollingUpdate", int32(2)}, {"OnDelete", int32(0)}} {
-					for _, tm := range []int{0, 2} {
+					for _, tm := range []int{0, 2, 3} {
 						if found >= 3 {
 							break
 						}
 						tried++
-						c := &c02Case{Replicas: r, Slots: slots, Policy: pol, Strategy: st[0].(string), Partition: st[1].(int32), Templates: tm}
+						c := &c02Case{Replicas: r, Slots: slots, Policy: pol, Strategy: st[0].(string), Partition: st[1].(int32), Templates: tm % 3, ServiceEdited: tm == 3}
 						msg := c02Judge(c)
 						key := msg
 						if len(key) > 24 {
